@@ -174,7 +174,7 @@ inductive CtlOp where
   | setMode (addr : String) (m : CMode)
   | verify (addr : String) (rwChain woChain : Option (List String)) (woCkpt : Option String)
            (rev : Option Nat) (setRwOk setRevOk : Bool) (ck : CkEnv)
-  | write (off len : Nat) (fails : List String)
+  | write (off len : Nat) (fails : List String) (tried : List (String × Out))
   | sync (fails : List String)
   | unmap (fails : List String)
   | read (off len : Nat) (tried : List (String × Out))
@@ -386,10 +386,36 @@ def stepFanOut (c : Ctl) (method : String) (fails : List String) : Ctl × CtlOut
   ((c1.ioFail errs).1,
    if majorityOk c.writers.length errs.length ∧ !(c1.ioFail errs).2 then .ok else .failed)
 
-def stepWrite (c : Ctl) (off len : Nat) (fails : List String) : Ctl × CtlOut :=
+/-- the calls of `replicator.ReadAt`: the readers that were tried, in order (observed) -/
+def readCalls (c : Ctl) (tried : List (String × Out)) : Ctl :=
+  tried.foldl (fun c t => match c.readers.find? (fun r => r.1 = t.1) with
+                          | some r => c.call r.2 "ReadAt" | none => c) c
+
+/-- the replica block size assumed by `widenForWONoLock` -/
+def blockSize : Nat := 4096
+
+/-- whether `widenForWONoLock` reads first: a WO replica is attached and the request does not cover
+    whole blocks (the widened end is clipped to the volume size) -/
+def needsWiden (c : Ctl) (off len : Nat) : Bool :=
+  let e := off + len
+  let e' := if e % blockSize = 0 then e else min (e + (blockSize - e % blockSize)) c.size
+  c.replicas.any (fun r => r.2 = .wo) && len != 0 && !(off % blockSize = 0 && e' = e)
+
+/-- `Controller.WriteAt`.  While a WO replica is attached a request that does not cover whole blocks
+    is first completed from the RW replicas (`tried`: the readers asked, as in `stepRead`); replicas
+    failing that read are dropped like on any read, and without a served read nothing is written. -/
+def stepWrite (c : Ctl) (off len : Nat) (fails : List String) (tried : List (String × Out)) : Ctl × CtlOut :=
   if c.readOnly then (c, .refused) else
   if off + len > c.size then (c, .refused) else
-  stepFanOut c "WriteAt" fails
+  if c.needsWiden off len then
+    if !c.available then (c, .failed) else
+    let c1 := c.readCalls tried
+    let errs := (tried.filter fun t => t.2 = .fail).map (·.1)
+    let served := tried.any fun t => t.2 = .ok
+    if errs.isEmpty then (if served then stepFanOut c1 "WriteAt" fails else (c1, .failed)) else
+    if served ∧ !(c1.ioFail errs).2 then stepFanOut (c1.ioFail errs).1 "WriteAt" fails
+    else ((c1.ioFail errs).1, .failed)
+  else stepFanOut c "WriteAt" fails
 
 def stepSync (c : Ctl) (method : String) (fails : List String) : Ctl × CtlOut :=
   if c.readOnly then (c, .refused) else stepFanOut c method fails
@@ -399,8 +425,7 @@ def stepRead (c : Ctl) (off len : Nat) (tried : List (String × Out)) : Ctl × C
   if c.replicas.length = 0 then (c, .failed) else
   if c.replicas.length = 1 ∧ (c.replicas.head?.map (·.2)) = some .wo then (c, .failed) else
   if !c.available then (c, .failed) else
-  let c := tried.foldl (fun c t => match c.readers.find? (fun r => r.1 = t.1) with
-                                    | some r => c.call r.2 "ReadAt" | none => c) c
+  let c := c.readCalls tried
   let errs := (tried.filter fun t => t.2 = .fail).map (·.1)
   let served := tried.any fun t => t.2 = .ok
   if errs.isEmpty then (c, if served then .ok else .failed) else
@@ -444,7 +469,7 @@ def step (c0 : Ctl) (op : CtlOp) : Ctl × CtlOut :=
   | .remove addr => (c.removeReplica addr CkEnv.none, .ok)
   | .setMode addr m => if m = .wo then (c, .refused) else (c.setMode addr m, .ok)
   | .verify addr rwChain woChain woCkpt rev setRwOk setRevOk ck => stepVerify c addr rwChain woChain woCkpt rev setRwOk setRevOk ck
-  | .write off len fails => stepWrite c off len fails
+  | .write off len fails tried => stepWrite c off len fails tried
   | .sync fails => stepSync c "Sync" fails
   | .unmap fails => stepSync c "Unmap" fails
   | .read off len tried => stepRead c off len tried
